@@ -200,6 +200,20 @@ func subGrid() mon.Sub {
 			for oi := 0; oi < nOffer; oi++ {
 				offer := offerOf(oi)
 				c.Count(1)
+				if (oi+c.I)%2 == 0 {
+					// the process serves other endpoints too, configured differently (larger windows, other flags):
+					// one of them has just negotiated - an equal offer, or another one. Negotiators share nothing.
+					other := cfgOf((c.I*7 + oi*13 + 5) % nCfg)
+					if (oi+c.I)%4 == 0 {
+						other = cfg
+						other.ClientMaxWindowBits, other.ServerMaxWindowBits = 15, 15
+					}
+					otherOffer := offer
+					if oi%3 == 0 {
+						otherOffer = offerOf((oi*11 + c.I) % nOffer)
+					}
+					negotiateOne(other, otherOffer, oi)
+				}
 				ok, ans, err := negotiateOne(cfg, offer, oi+c.I)
 				if err != nil {
 					c.Fail("grid/error", "Negotiate returns an error for a well-formed offer: "+err.Error(), map[string]interface{}{"config": fmt.Sprintf("%+v", cfg), "offer": offer.String()})
